@@ -74,8 +74,27 @@ def cls3(v, lo, hi):
 def case_roundtrip(ctx, rng, idx):
     fft, cp, used = gen_config(rng, idx)
     tag = {"fft": fft, "cp": cp, "used": used}
-    okc, o = ctx.call("round-trip", OF.OFDM, fft, cp, used if rng.random() < 0.8 or used != fft
-                      else None, cls="constructor", detail=tag)
+    reconf = rng.random() < 0.4
+    tag["reconfigured"] = reconf
+    if reconf:
+        # an object that was built and USED with other parameters (often the
+        # same number of used subcarriers) and then reconfigured
+        fft0 = int(rng.choice([f for f in FFTS if f != fft and f <= 256]))
+        used0 = used if (used <= fft0 and rng.random() < 0.6) else \
+            2 * int(rng.integers(1, (fft0 - fft0 % 2) // 2 + 1))
+        cp0 = int(rng.integers(0, fft0 + 1))
+
+        def build():
+            o = OF.OFDM(fft0, cp0, used0)
+            o.demodulate(np.asarray(o.modulate(rand_c(rng, used0 + 1))).copy())
+            o.get_used_subcarrier_indexes()
+            o.set_parameters(fft, cp, used)
+            return o
+        tag["before"] = [fft0, cp0, used0]
+        okc, o = ctx.call("round-trip", build, cls="reconfigure", detail=tag)
+    else:
+        okc, o = ctx.call("round-trip", OF.OFDM, fft, cp, used if rng.random() < 0.8 or
+                          used != fft else None, cls="constructor", detail=tag)
     if not okc:
         return
     lc = rng.random()
@@ -127,7 +146,7 @@ def case_roundtrip(ctx, rng, idx):
         ctx.within("round-trip", float(np.max(np.abs(back[n:]))), tol, "padding-is-zero", tag)
     if used > 2 or fft > 2:
         ctx.sig("rt", fft, cls3(cp, 0, fft), cls3(used, 2, fft - fft % 2),
-                "multiple" if n % used == 0 else "ragged")
+                "multiple" if n % used == 0 else "ragged", reconf)
     if idx % 50 == 0:
         ctx.sample("roundtrip", {**tag, "x_head": x[:3]})
 
